@@ -15,6 +15,12 @@ package main
 // suffixes (internal/names VerifNewNameGenerator: the real availability loop
 // with scripted suffixes), so that name collisions can be generated and the
 // names fed to the model as the name oracle.
+//
+// References are full references on both sides: the claim's spec.resourceRef is seeded (and rewritten
+// by the environment) under every kind of apiVersion/kind (c06XRefTypes), XRs carry a spec.claimRef
+// naming this claim, a claim with another name, the same name in another namespace, another kind /
+// version / group (c06CRefVariant), and the controller incarnation of each reconcile is built for XR
+// version v1 or v1alpha1 (c06Rec.XRV: the XRD's referenceable version switched, controller restarted).
 
 import (
 	"context"
@@ -58,8 +64,97 @@ var (
 
 // ---- scenario ----
 
+// c06Ref is a full typed reference: a claim's spec.resourceRef (reference.Composite: apiVersion =
+// group/version, kind, name; NS and UID unused) or an XR's spec.claimRef (reference.Claim: apiVersion,
+// kind, namespace, name; UID = the stored map also carries a uid key, which reference.Claim drops).
+// Name == "" means the reference is unset.
+type c06Ref struct {
+	Name    string `json:"name"`
+	NS      string `json:"ns"`
+	Group   string `json:"group"`
+	Version string `json:"version"`
+	Kind    string `json:"kind"`
+	UID     bool   `json:"uid"`
+}
+
+func c06APIVersion(g, v string) string {
+	if g == "" {
+		return v
+	}
+	return g + "/" + v
+}
+
+// c06XRefOf is the reference the syncers write for XR `name` when the controller runs for XR version ver.
+func c06XRefOf(name, ver string) c06Ref {
+	return c06Ref{Name: name, Group: c06XRGVK.Group, Version: ver, Kind: c06XRGVK.Kind}
+}
+
+// c06Self is this claim's reference (cm.GetReference()).
+func c06Self() c06Ref {
+	return c06Ref{Name: c06ClaimName, NS: c06NS, Group: c06ClaimGVK.Group, Version: c06ClaimGVK.Version, Kind: c06ClaimGVK.Kind}
+}
+
+// c06XRefTypes: the apiVersion/kind a claim's spec.resourceRef may carry, relative to the XR type the
+// controller reconciles (example.org/<xrv> XThing). The pinned code reads only the NAME of the reference.
+var c06XRefTypes = map[string][3]string{
+	"v1":   {"example.org", "v1", "XThing"},       // a served version of the XR kind
+	"v1a1": {"example.org", "v1alpha1", "XThing"}, // the other served version of the XR kind
+	"grp":  {"other.org", "v1", "XThing"},         // another group
+	"kind": {"example.org", "v1", "XOther"},       // another kind
+	"none": {"", "", ""},                          // hand-written: name only
+}
+
+// c06CRefVariants: what an XR's spec.claimRef may name, relative to this claim (example.org/v1 Thing ns/c).
+// cmp.Equal(cm.GetReference(), ref) compares apiVersion, kind, namespace and name: everything but
+// "self" and "selfuid" is a DIFFERENT claim.
+func c06CRefVariant(v string) c06Ref {
+	r := c06Self()
+	switch v {
+	case "":
+		return c06Ref{}
+	case "self":
+	case "selfuid":
+		r.UID = true
+	case "name":
+		r.Name = "other"
+	case "ns": // the claim with the same name in another namespace
+		r.NS = "other-ns"
+	case "nons": // a reference that lost its namespace
+		r.NS = ""
+	case "kind":
+		r.Kind = "OtherThing"
+	case "ver":
+		r.Version = "v1alpha1"
+	case "grp":
+		r.Group = "other.org"
+	}
+	return r
+}
+
+// c06CRefClass names the variant of a claimRef (for cls and monitor messages).
+func c06CRefClass(r c06Ref) string {
+	me := c06Self()
+	switch {
+	case r.Name == "":
+		return "unbound"
+	case r.Name != me.Name:
+		return "other-name"
+	case r.NS != me.NS:
+		return "other-ns"
+	case r.Kind != me.Kind:
+		return "other-kind"
+	case r.Group != me.Group:
+		return "other-group"
+	case r.Version != me.Version:
+		return "other-version"
+	case r.UID:
+		return "selfuid"
+	}
+	return "self"
+}
+
 type c06Claim struct {
-	Ref        string `json:"ref"`        // spec.resourceRef.name ("" = unset)
+	Ref        c06Ref `json:"ref"`        // spec.resourceRef (Name "" = unset)
 	Fin        bool   `json:"fin"`        // carries the claim finalizer
 	Deleting   bool   `json:"deleting"`   // deletionTimestamp set (only with Fin)
 	Foreground bool   `json:"foreground"` // spec.compositeDeletePolicy = Foreground
@@ -67,7 +162,7 @@ type c06Claim struct {
 
 type c06XR struct {
 	Name     string `json:"name"`
-	Ref      string `json:"ref"`      // spec.claimRef: "" | "self" | "other"
+	Ref      c06Ref `json:"ref"`      // spec.claimRef (Name "" = unset)
 	Labeled  bool   `json:"labeled"`  // carries this claim's claim-name / claim-namespace labels
 	Fin      bool   `json:"fin"`      // carries the XR controller's finalizer
 	Deleting bool   `json:"deleting"` // deletionTimestamp set (only with Fin)
@@ -78,8 +173,11 @@ type c06XR struct {
 type c06Env struct {
 	ID    int    `json:"id"`    // unique within the scenario; an XR-controller write stores it as status.observed
 	After int    `json:"after"` // applied right after call index `after` of the reconcile; -1 = before it starts
-	Act   string `json:"act"`   // xrTouch | xrRemove | xrDelete | claimDelete | claimTouch
+	Act   string `json:"act"`   // xrTouch | xrRemove | xrDelete | claimDelete | claimTouch | claimRetype
 	Name  string `json:"name"`  // XR name (xr* actions)
+	G     string `json:"g"`     // claimRetype: group, version, kind written into spec.resourceRef (the name stays)
+	V     string `json:"v"`
+	K     string `json:"k"`
 }
 
 type c06Fault struct {
@@ -92,7 +190,7 @@ type c06Fault struct {
 type c06Read struct {
 	Found    bool   `json:"found"`
 	Stale    bool   `json:"stale"` // an older version than the stored one
-	Ref      string `json:"ref"`
+	Ref      string `json:"ref"`   // canonical spec.resourceRef: apiVersion|kind|name ("" = unset)
 	Fin      bool   `json:"fin"`
 	Deleting bool   `json:"deleting"`
 }
@@ -102,16 +200,18 @@ type c06XRead struct {
 	Name     string `json:"name"`
 	Found    bool   `json:"found"`
 	Stale    bool   `json:"stale"` // an older state of that name than the stored one
-	Ref      string `json:"ref"`
+	Ref      string `json:"ref"`   // canonical spec.claimRef: apiVersion|kind|namespace|name[+uid] ("" = unset)
 	Labeled  bool   `json:"labeled"`
 	Fin      bool   `json:"fin"`
 	Deleting bool   `json:"deleting"`
 	Status   bool   `json:"status"`
 	Gen      int    `json:"gen"`      // status.observed
 	AbsAfter int    `json:"absAfter"` // stale reads: how often the name was absent between the served state and the stored one
+	DupAfter int    `json:"dupAfter"` // stale reads: how many newer, not current states of the same incarnation have the same abstract content
 }
 
 type c06Rec struct {
+	XRV    string     `json:"xrv"`  // the XR version this incarnation of the controller reconciles ("" = v1)
 	Lag    int        `json:"lag"`  // the cache serves the claim this many versions back (0 = fresh)
 	XLag   []int      `json:"xlag"` // the cache serves the k-th XR read of the reconcile this many states back
 	Faults []c06Fault `json:"faults"`
@@ -173,8 +273,55 @@ type c06Obs struct {
 
 // ---- world ----
 
-func c06ClaimRefMap(name string) map[string]any {
-	return map[string]any{"apiVersion": "example.org/v1", "kind": "Thing", "name": name, "namespace": c06NS}
+func c06ClaimRefMap(r c06Ref) map[string]any {
+	m := map[string]any{"apiVersion": c06APIVersion(r.Group, r.Version), "kind": r.Kind, "name": r.Name}
+	if r.NS != "" {
+		m["namespace"] = r.NS
+	}
+	if r.UID {
+		m["uid"] = "3f1c9a52-0000-4000-8000-000000000001"
+	}
+	return m
+}
+
+func c06XRefMap(r c06Ref) map[string]any {
+	m := map[string]any{"name": r.Name}
+	if av := c06APIVersion(r.Group, r.Version); av != "" {
+		m["apiVersion"] = av
+	}
+	if r.Kind != "" {
+		m["kind"] = r.Kind
+	}
+	return m
+}
+
+// c06XRefStr / c06CRefStr: canonical text of a stored reference (the model prints the same from its components).
+func c06XRefStr(u *unstructured.Unstructured) string {
+	m, ok, _ := unstructured.NestedMap(u.Object, "spec", "resourceRef")
+	if !ok || m == nil {
+		return ""
+	}
+	return fmt.Sprintf("%s|%s|%s", strOf(m, "apiVersion"), strOf(m, "kind"), strOf(m, "name"))
+}
+
+func c06XRefName(u *unstructured.Unstructured) string {
+	if u == nil {
+		return ""
+	}
+	n, _, _ := unstructured.NestedString(u.Object, "spec", "resourceRef", "name")
+	return n
+}
+
+func c06CRefStr(u *unstructured.Unstructured) string {
+	m, ok, _ := unstructured.NestedMap(u.Object, "spec", "claimRef")
+	if !ok || m == nil {
+		return ""
+	}
+	s := fmt.Sprintf("%s|%s|%s|%s", strOf(m, "apiVersion"), strOf(m, "kind"), strOf(m, "namespace"), strOf(m, "name"))
+	if _, has := m["uid"]; has {
+		s += "+uid"
+	}
+	return s
 }
 
 func c06SeedClaim(st *Store, c c06Claim) {
@@ -183,8 +330,8 @@ func c06SeedClaim(st *Store, c c06Claim) {
 	u.SetNamespace(c06NS)
 	u.SetName(c06ClaimName)
 	spec := map[string]any{"param": "v"}
-	if c.Ref != "" {
-		spec["resourceRef"] = map[string]any{"apiVersion": "example.org/v1", "kind": "XThing", "name": c.Ref}
+	if c.Ref.Name != "" {
+		spec["resourceRef"] = c06XRefMap(c.Ref)
 	}
 	if c.Foreground {
 		spec["compositeDeletePolicy"] = "Foreground"
@@ -205,17 +352,15 @@ func c06SeedXR(st *Store, x c06XR) {
 	u.SetGroupVersionKind(c06XRGVK)
 	u.SetName(x.Name)
 	spec := map[string]any{"param": "v"}
-	switch x.Ref {
-	case "self":
-		spec["claimRef"] = c06ClaimRefMap(c06ClaimName)
-	case "other":
-		spec["claimRef"] = c06ClaimRefMap("other")
+	if x.Ref.Name != "" {
+		spec["claimRef"] = c06ClaimRefMap(x.Ref)
 	}
 	u.Object["spec"] = spec
 	if x.Labeled {
 		u.SetLabels(map[string]string{c06LblName: c06ClaimName, c06LblNS: c06NS})
-	} else if x.Ref == "other" {
-		u.SetLabels(map[string]string{c06LblName: "other", c06LblNS: c06NS})
+	} else if x.Ref.Name != "" && (x.Ref.Name != c06ClaimName || x.Ref.NS != c06NS) {
+		// the labels of the claim it is bound to (they only carry name and namespace)
+		u.SetLabels(map[string]string{c06LblName: x.Ref.Name, c06LblNS: x.Ref.NS})
 	}
 	if x.Fin {
 		u.SetFinalizers([]string{c06XRFin})
@@ -240,15 +385,25 @@ func c06SeedXR(st *Store, x c06XR) {
 	st.Seed(u)
 }
 
+// c06RefClass classifies a stored XR's spec.claimRef the way the property does: "" (none), "self"
+// (apiVersion, kind, namespace and name are this claim's — what cmp.Equal on reference.Claim
+// compares; a uid key is not part of it), or "other:<first differing component>".
 func c06RefClass(u *unstructured.Unstructured) string {
 	m, ok, _ := unstructured.NestedMap(u.Object, "spec", "claimRef")
 	if !ok || m == nil {
 		return ""
 	}
-	if m["name"] == c06ClaimName && m["namespace"] == c06NS && m["kind"] == "Thing" && m["apiVersion"] == "example.org/v1" {
-		return "self"
+	switch {
+	case strOf(m, "name") != c06ClaimName:
+		return "other:name"
+	case strOf(m, "namespace") != c06NS:
+		return "other:namespace"
+	case strOf(m, "kind") != c06ClaimGVK.Kind:
+		return "other:kind"
+	case strOf(m, "apiVersion") != c06ClaimGVK.GroupVersion().String():
+		return "other:apiVersion"
 	}
-	return "other"
+	return "self"
 }
 
 func c06Labeled(u *unstructured.Unstructured) bool {
@@ -269,13 +424,12 @@ func c06AbsClaim(u *unstructured.Unstructured) c06OClaim {
 	if u == nil {
 		return c06OClaim{}
 	}
-	ref, _, _ := unstructured.NestedString(u.Object, "spec", "resourceRef", "name")
-	return c06OClaim{Exists: true, Ref: ref, Fin: c06HasFin(u, c06Finalizer), Deleting: u.GetDeletionTimestamp() != nil}
+	return c06OClaim{Exists: true, Ref: c06XRefStr(u), Fin: c06HasFin(u, c06Finalizer), Deleting: u.GetDeletionTimestamp() != nil}
 }
 
 func c06AbsXR(u *unstructured.Unstructured) c06OXR {
 	_, hasStatus := u.Object["status"]
-	return c06OXR{Name: u.GetName(), Ref: c06RefClass(u), Labeled: c06Labeled(u), Fin: len(u.GetFinalizers()) > 0,
+	return c06OXR{Name: u.GetName(), Ref: c06CRefStr(u), Labeled: c06Labeled(u), Fin: len(u.GetFinalizers()) > 0,
 		Deleting: u.GetDeletionTimestamp() != nil, Status: hasStatus}
 }
 
@@ -326,6 +480,20 @@ func c06ApplyEnv(st *Store, e c06Env, tick *int) {
 				})
 			}
 		}
+	case "claimRetype":
+		// somebody (a restore from a backup taken under another served version, a hand edit) rewrites
+		// apiVersion/kind of spec.resourceRef; the name stays
+		st.Mutate(cgk, c06NS, c06ClaimName, func(u *unstructured.Unstructured) {
+			m, ok, _ := unstructured.NestedMap(u.Object, "spec", "resourceRef")
+			if !ok || m == nil {
+				return
+			}
+			av := c06APIVersion(e.G, e.V)
+			if strOf(m, "apiVersion") == av && strOf(m, "kind") == e.K {
+				return
+			}
+			_ = unstructured.SetNestedMap(u.Object, c06XRefMap(c06Ref{Name: strOf(m, "name"), Group: e.G, Version: e.V, Kind: e.K}), "spec", "resourceRef")
+		})
 	case "claimTouch":
 		// a user edit of the claim that bumps its resourceVersion; a reserved label key is
 		// never propagated to the XR (field-level sync is C07's subject)
@@ -429,13 +597,28 @@ func (c *c06Cache) Get(ctx context.Context, key client.ObjectKey, obj client.Obj
 			rd.AbsAfter++
 		}
 	}
+	if v != nil {
+		// several older states of one incarnation may have the same abstract content (they differ in
+		// resourceVersion only): tell the model which of them was served
+		key := func(u *unstructured.Unstructured) string {
+			gen, _, _ := unstructured.NestedInt64(u.Object, "status", "observed")
+			return fmt.Sprint(c06AbsXR(u), gen)
+		}
+		for i := idx + 1; i < len(h)-1 && h[i] != nil; i++ {
+			if key(h[i]) == key(v) {
+				rd.DupAfter++
+			}
+		}
+	}
 	if rd.Stale {
 		if v == nil {
 			err = kerrors.NewNotFound(schema.GroupResource{Group: gvk.Group, Resource: "xthings"}, key.Name)
 			obj.(runtime.Unstructured).SetUnstructuredContent(before) // a failed Get leaves the object untouched
 			last.Err = "notFound"
 		} else {
-			obj.(runtime.Unstructured).SetUnstructuredContent(runtime.DeepCopyJSON(v.Object))
+			m := runtime.DeepCopyJSON(v.Object)
+			m["apiVersion"] = gvk.GroupVersion().String() // the server converts to the requested version
+			obj.(runtime.Unstructured).SetUnstructuredContent(m)
 			err = nil
 			last.Err = ""
 		}
@@ -461,7 +644,34 @@ func (c *c06Cache) Get(ctx context.Context, key client.ObjectKey, obj client.Obj
 	return err
 }
 
-func c06NewReconciler(st client.Client, flags *feature.Flags, namer func(string) string) *claim.Reconciler {
+// keepVersion: the API server answers every request in the version of the request's URL (conversion),
+// whatever version the object is stored at; simstore's write responses return the stored apiVersion.
+func (c *c06Cache) keepVersion(obj client.Object, call func() error) error {
+	gvk := obj.GetObjectKind().GroupVersionKind()
+	err := call()
+	if !gvk.Empty() && gvk.GroupKind() == c06XRGVK.GroupKind() {
+		obj.GetObjectKind().SetGroupVersionKind(gvk)
+	}
+	return err
+}
+
+func (c *c06Cache) Create(ctx context.Context, obj client.Object, opts ...client.CreateOption) error {
+	return c.keepVersion(obj, func() error { return c.Store.Create(ctx, obj, opts...) })
+}
+
+func (c *c06Cache) Update(ctx context.Context, obj client.Object, opts ...client.UpdateOption) error {
+	return c.keepVersion(obj, func() error { return c.Store.Update(ctx, obj, opts...) })
+}
+
+func (c *c06Cache) Patch(ctx context.Context, obj client.Object, patch client.Patch, opts ...client.PatchOption) error {
+	return c.keepVersion(obj, func() error { return c.Store.Patch(ctx, obj, patch, opts...) })
+}
+
+func c06NewReconciler(st client.Client, flags *feature.Flags, namer func(string) string, xrVersion string) *claim.Reconciler {
+	xrGVK := c06XRGVK
+	if xrVersion != "" {
+		xrGVK.Version = xrVersion
+	}
 	ng := names.VerifNewNameGenerator(st, namer)
 	o := []claim.ReconcilerOption{}
 	if flags.Enabled(features.EnableBetaClaimSSA) {
@@ -474,7 +684,7 @@ func c06NewReconciler(st client.Client, flags *feature.Flags, namer func(string)
 		// same syncer, scripted suffix source.
 		o = append(o, claim.WithCompositeSyncer(claim.NewClientSideCompositeSyncer(st, ng)))
 	}
-	return claim.NewReconciler(st, resource.CompositeClaimKind(c06ClaimGVK), resource.CompositeKind(c06XRGVK), o...)
+	return claim.NewReconciler(st, resource.CompositeClaimKind(c06ClaimGVK), resource.CompositeKind(xrGVK), o...)
 }
 
 func c06Run(s *c06Scn) (c06Obs, []Mon) {
@@ -506,7 +716,17 @@ func c06Run(s *c06Scn) (c06Obs, []Mon) {
 	}
 	cache := &c06Cache{Store: st, xh: map[string][]*unstructured.Unstructured{}}
 	cache.snapshot()
-	r := c06NewReconciler(cache, flags, namer)
+	// one controller incarnation per XR version: switching the XRD's referenceable version restarts it
+	recons := map[string]*claim.Reconciler{}
+	reconFor := func(ver string) *claim.Reconciler {
+		if ver == "" {
+			ver = c06XRGVK.Version
+		}
+		if recons[ver] == nil {
+			recons[ver] = c06NewReconciler(cache, flags, namer, ver)
+		}
+		return recons[ver]
+	}
 
 	xgk, cgk := c06XRGVK.GroupKind(), c06ClaimGVK.GroupKind()
 	xgks, cgks := gkString(xgk), gkString(cgk)
@@ -527,26 +747,30 @@ func c06Run(s *c06Scn) (c06Obs, []Mon) {
 	var preXRRef string
 	var preClaimRef string
 	var preClaimExists bool
-	lastRef := c06AbsClaim(st.Peek(cgk, c06NS, c06ClaimName)).Ref
+	lastRef := c06XRefName(st.Peek(cgk, c06NS, c06ClaimName))
 
 	checkStore := func(when string) {
-		// (1) never more than one XR bound to / labelled for this claim
+		// (1) never more than one XR bound to this claim: its claimRef is this claim's reference in
+		// apiVersion, kind, namespace and name (or, without a claimRef, it carries this claim's labels;
+		// the labels alone do not identify the claim: they have no kind / apiVersion)
 		n := 0
 		var ns []string
-		for _, x := range c06XRs(st) {
-			if x.Ref == "self" || x.Labeled {
+		for _, u := range st.OfKind(xgk) {
+			if cl := c06RefClass(u); cl == "self" || (cl == "" && c06Labeled(u)) {
 				n++
-				ns = append(ns, x.Name)
+				ns = append(ns, u.GetName())
 			}
 		}
+		sort.Strings(ns)
 		if n > 1 {
 			addMon("C06:second-xr", fmt.Sprintf("%s: %d XRs carry this claim's claimRef/labels: %v", when, n, ns))
 		}
-		// (2) spec.resourceRef is set-once
+		// (2) the XR named by spec.resourceRef is set-once (apiVersion/kind of the reference may be
+		// rewritten to the controller's current XR type; the NAME never changes)
 		if cl := st.Peek(cgk, c06NS, c06ClaimName); cl != nil {
-			ref := c06AbsClaim(cl).Ref
+			ref := c06XRefName(cl)
 			if lastRef != "" && ref != lastRef {
-				addMon("C06:ref-rebound", fmt.Sprintf("%s: claim spec.resourceRef changed from %q to %q", when, lastRef, ref))
+				addMon("C06:ref-rebound", fmt.Sprintf("%s: claim spec.resourceRef.name changed from %q to %q (reference now %q)", when, lastRef, ref, c06XRefStr(cl)))
 			}
 			lastRef = ref
 		}
@@ -599,12 +823,12 @@ func c06Run(s *c06Scn) (c06Obs, []Mon) {
 			}
 			cl := st.Peek(cgk, c06NS, c06ClaimName)
 			preClaimExists = cl != nil
-			preClaimRef = c06AbsClaim(cl).Ref
+			preClaimRef = c06XRefName(cl)
 		}
 		st.After = func(c CallInfo) {
 			if c.GK == xgks && c.IsWrite() && c.Applied && !c.DryRun {
-				if preXRExists && preXRRef == "other" {
-					addMon("C06:hijack", fmt.Sprintf("%s %s addressed to XR %q whose claimRef names another claim", c.Verb, c.PatchType, c.Name))
+				if preXRExists && strings.HasPrefix(preXRRef, "other") {
+					addMon("C06:hijack", fmt.Sprintf("%s %s addressed to XR %q whose claimRef names another claim (differs from this claim's reference in: %s)", c.Verb, c.PatchType, c.Name, strings.TrimPrefix(preXRRef, "other:")))
 				}
 				if !preXRExists && (c.Verb == "create" || (c.Verb == "patch" && c.PatchType == "apply")) {
 					// the claim controller created XR c.Name
@@ -648,7 +872,7 @@ func c06Run(s *c06Scn) (c06Obs, []Mon) {
 		var res reconcile.Result
 		var err error
 		if p := Guard(func() {
-			res, err = r.Reconcile(context.Background(), reconcile.Request{NamespacedName: types.NamespacedName{Namespace: c06NS, Name: c06ClaimName}})
+			res, err = reconFor(rec.XRV).Reconcile(context.Background(), reconcile.Request{NamespacedName: types.NamespacedName{Namespace: c06NS, Name: c06ClaimName}})
 		}); p != "" {
 			addMon("C06:panic", p)
 		}
@@ -686,14 +910,30 @@ func c06Run(s *c06Scn) (c06Obs, []Mon) {
 
 var c06SeedNames = []string{"x-a", "x-b"}
 
-func c06GenXR(r *Rng, name string, ref string) c06XR {
-	x := c06XR{Name: name, Ref: ref}
-	x.Labeled = ref == "self" && r.Chance(5, 6)
+// c06GenXR: variant = c06CRefVariant name
+func c06GenXR(r *Rng, name string, variant string) c06XR {
+	x := c06XR{Name: name, Ref: c06CRefVariant(variant)}
+	switch variant {
+	case "self", "selfuid":
+		x.Labeled = r.Chance(5, 6)
+	case "kind", "ver", "grp":
+		// a different claim with the same name and namespace: the claim labels (name, namespace) coincide
+		x.Labeled = r.Chance(1, 2)
+	}
 	x.Fin = r.Chance(2, 3)
 	x.Deleting = x.Fin && r.Chance(1, 6)
 	x.Status = r.Chance(1, 2)
 	x.MF = Pick(r, []string{"legacy", "legacy", "ssa", "ssabfa"})
 	return x
+}
+
+// c06GenXRef: the claim's spec.resourceRef naming XR `name` under every kind of apiVersion/kind
+func c06GenXRef(r *Rng, name string) c06Ref {
+	if name == "" {
+		return c06Ref{}
+	}
+	t := c06XRefTypes[Pick(r, []string{"v1", "v1", "v1", "v1", "v1a1", "v1a1", "v1a1", "grp", "kind", "none"})]
+	return c06Ref{Name: name, Group: t[0], Version: t[1], Kind: t[2]}
 }
 
 func c06Gen(r *Rng, tier string) c06Scn {
@@ -719,34 +959,54 @@ func c06Gen(r *Rng, tier string) c06Scn {
 		}
 	}
 	// the claim
+	refName := ""
 	switch r.Intn(10) {
 	case 0, 1, 2, 3: // brand new claim
 		s.Claim = c06Claim{Fin: r.Chance(1, 3)}
 	case 4, 5, 6, 7: // bound (or statically bound) claim
-		s.Claim = c06Claim{Ref: Pick(r, c06SeedNames), Fin: r.Chance(3, 4)}
+		refName = Pick(r, c06SeedNames)
+		s.Claim = c06Claim{Fin: r.Chance(3, 4)}
 	default: // deleting claim
-		s.Claim = c06Claim{Ref: Pick(r, []string{"", "x-a", "x-b"}), Fin: true, Deleting: true}
+		refName = Pick(r, []string{"", "x-a", "x-b"})
+		s.Claim = c06Claim{Fin: true, Deleting: true}
 	}
+	// the reference under the controller's XR apiVersion, another served version of the same group/kind,
+	// another group, another kind, or without apiVersion/kind
+	s.Claim.Ref = c06GenXRef(r, refName)
 	s.Claim.Foreground = r.Chance(1, 4)
-	// XRs: the referenced one (ours, unbound, foreign or missing) and bystanders
+	// XRs: the referenced one (ours, unbound, bound to a different claim — another name, the same name in
+	// another namespace, another kind / version / group, no namespace — or missing) and bystanders
 	for _, n := range c06SeedNames {
 		if !exhaust && !r.Chance(2, 3) {
 			continue
 		}
-		var ref string
-		if n == s.Claim.Ref {
-			ref = Pick(r, []string{"self", "self", "self", "", "other"})
+		var v string
+		if n == refName {
+			v = Pick(r, []string{"self", "self", "self", "self", "self", "selfuid", "", "name", "ns", "ns", "kind", "ver", "grp", "nons"})
 		} else {
-			ref = Pick(r, []string{"other", "other", ""})
+			v = Pick(r, []string{"name", "name", "name", "ns", "kind", "ver", "grp", "nons", "", ""})
 		}
-		s.XRs = append(s.XRs, c06GenXR(r, n, ref))
+		s.XRs = append(s.XRs, c06GenXR(r, n, v))
 	}
 	names := append([]string{}, c06SeedNames...)
 	names = append(names, "c-1", "c-2")
 	nrec := r.Range(1, 4)
+	// the XRD's referenceable version: fixed for the whole history, or switched between reconciles
+	// (the controller is restarted for the other served version)
+	vers := []string{"v1", "v1alpha1"}
+	baseVer, switching := "v1", false
+	switch r.Intn(6) {
+	case 0:
+		baseVer = "v1alpha1"
+	case 1, 2:
+		switching = true
+	}
 	envID := 0
 	for i := 0; i < nrec; i++ {
-		rec := c06Rec{Faults: []c06Fault{}, Env: []c06Env{}, XLag: []int{}}
+		rec := c06Rec{XRV: baseVer, Faults: []c06Fault{}, Env: []c06Env{}, XLag: []int{}}
+		if switching {
+			rec.XRV = Pick(r, vers)
+		}
 		if r.Chance(1, 2) {
 			rec.Lag = r.Range(1, c06MaxLag)
 		}
@@ -759,9 +1019,13 @@ func c06Gen(r *Rng, tier string) c06Scn {
 			rec.Faults = append(rec.Faults, c06Fault{K: r.Intn(9), O: Pick(r, []string{"fail", "conflict", "crashBefore", "crashAfter", "crashAfter"})})
 		}
 		for j, n := 0, Pick(r, []int{0, 0, 1, 1, 2, 3}); j < n; j++ {
-			e := c06Env{After: r.Range(-1, 7), Act: Pick(r, []string{"xrTouch", "xrTouch", "xrRemove", "xrDelete", "claimDelete", "claimTouch", "claimTouch"})}
+			e := c06Env{After: r.Range(-1, 7), Act: Pick(r, []string{"xrTouch", "xrTouch", "xrTouch", "xrRemove", "xrDelete", "claimDelete", "claimTouch", "claimTouch", "claimTouch", "claimRetype"})}
 			if strings.HasPrefix(e.Act, "xr") {
 				e.Name = Pick(r, names)
+			}
+			if e.Act == "claimRetype" {
+				t := c06XRefTypes[Pick(r, []string{"v1", "v1a1", "v1a1", "grp", "kind", "none"})]
+				e.G, e.V, e.K = t[0], t[1], t[2]
 			}
 			envID++
 			e.ID = envID
@@ -776,21 +1040,33 @@ func c06Cls(s *c06Scn, o c06Obs) string {
 	claimKind := "new"
 	if s.Claim.Deleting {
 		claimKind = "deleting"
-	} else if s.Claim.Ref != "" {
+	} else if s.Claim.Ref.Name != "" {
 		claimKind = "bound-missing"
+	}
+	if s.Claim.Ref.Name != "" {
 		for _, x := range s.XRs {
-			if x.Name == s.Claim.Ref {
-				claimKind = "bound-" + map[string]string{"self": "self", "other": "foreign", "": "unbound"}[x.Ref]
+			if x.Name == s.Claim.Ref.Name {
+				claimKind = map[bool]string{false: "bound-", true: "deleting-"}[s.Claim.Deleting] + c06CRefClass(x.Ref)
 			}
 		}
 	}
-	stale, crash, errf, env, created, upg, del, xstale := false, false, false, false, false, false, false, false
+	stale, crash, errf, env, created, upg, del, xstale, retyped, vsw := false, false, false, false, false, false, false, false, false, false
 	for i, rec := range s.Recs {
 		stale = stale || rec.Read.Stale
 		for _, x := range rec.XReads {
 			xstale = xstale || x.Stale
 		}
 		upg = upg || rec.Up != ""
+		ver := rec.XRV
+		if ver == "" {
+			ver = c06XRGVK.Version
+		}
+		if i > 0 && rec.XRV != s.Recs[i-1].XRV {
+			vsw = true
+		}
+		if rec.Read.Found && rec.Read.Ref != "" && !strings.HasPrefix(rec.Read.Ref, c06APIVersion(c06XRGVK.Group, ver)+"|"+c06XRGVK.Kind+"|") {
+			retyped = true // the reference the reconcile saw carries another apiVersion/kind than the controller's XR type
+		}
 		if i < len(o.Recs) {
 			n := len(o.Recs[i].Calls)
 			crash = crash || o.Recs[i].Res == "crashed"
@@ -819,8 +1095,10 @@ func c06Cls(s *c06Scn, o c06Obs) string {
 		return "-"
 	}
 	// S stale claim read, X stale XR read, C crash, F injected error/conflict, E environment step between two calls,
-	// A XR created/applied, D XR deleted, U managed-fields upgrade patch
-	return fmt.Sprintf("%s/%s/%s%s%s%s%s%s%s%s", s.Syncer, claimKind, b(stale, "S"), b(xstale, "X"), b(crash, "C"), b(errf, "F"), b(env, "E"), b(created, "A"), b(del, "D"), b(upg, "U"))
+	// A XR created/applied, D XR deleted, U managed-fields upgrade patch,
+	// T a reconcile saw a spec.resourceRef whose apiVersion/kind is not the controller's XR type,
+	// W the controller's XR version switched between two reconciles
+	return fmt.Sprintf("%s/%s/%s%s%s%s%s%s%s%s%s%s", s.Syncer, claimKind, b(stale, "S"), b(xstale, "X"), b(crash, "C"), b(errf, "F"), b(env, "E"), b(created, "A"), b(del, "D"), b(upg, "U"), b(retyped, "T"), b(vsw, "W"))
 }
 
 func c06Clone(s c06Scn) c06Scn {
